@@ -454,7 +454,7 @@ def _log_noop(ex, args, f):
     return UNIT
 
 
-@intr("core::fmt::rt::Argument::new_debug", "core::fmt::rt::Argument::new_lower_hex", "core::fmt::rt::Argument::new_upper_hex",
+@intr("core::fmt::rt::Argument::new_debug", "core::fmt::rt::Argument::new_upper_hex",
       "core::fmt::rt::Argument::<'_>::new_debug")
 def _new_debug(ex, args, f):
     return Opaque("fmtarg-debug", args[0])
@@ -2243,3 +2243,76 @@ def _io_copy(ex, args, f):
     else:
         raise Unsupported("io::copy into %r" % (w,))
     return ok(Int(n, "u64"))
+
+
+@intr("Path::is_dir", "std::path::Path::is_dir")
+def _path_is_dir(ex, args, f):
+    """is_dir() follows symbolic links: for a path that is (or leads through) a link made by this extraction the answer is arbitrary (the target may be a
+    directory outside); the target and its ancestors are directories; below the fresh target only what this run created as a directory is one"""
+    fs = _fs()
+    p = list(_path_bytes(ex, args[0]))
+    where, stack, through, final = fs.classify(ex, p)
+    if through or final or where == "outside":
+        fs.nq += 1
+        return Bool(z3.Bool("fs_isdir_%d_%d" % (len(fs.ops), fs.nq)))
+    if where in ("target", "ancestor"):
+        return Bool(True)
+    for op in fs.ops:
+        if op[0] in ("create_dir_all", "create_dir") and (len(op) < 4 or op[3]):
+            st2 = fs.walk(ex, op[1])[0]
+            # create_dir_all makes every missing ancestor too
+            if len(st2) >= len(stack) and fs.same(ex, st2[:len(stack)], stack) and (op[0] == "create_dir_all" or len(st2) == len(stack)):
+                return Bool(True)
+    return Bool(False)
+
+
+# ---- more of the bitflags!-generated API ---------------------------------------------------------------------------------------------------
+def _flags_name(f):
+    m = re.search(r"<impl (?:constants::)?(\w+)>::", f)
+    return m.group(1) if m else "Flags"
+
+
+def _flags_empty(ex, args, f):
+    nm = _flags_name(f)
+    flags_mask(nm)
+    return Adt(nm, "bits", [Int(0, _FLAG_WIDTH[nm])])
+
+
+def _flags_all(ex, args, f):
+    nm = _flags_name(f)
+    return Adt(nm, "bits", [Int(flags_mask(nm), _FLAG_WIDTH[nm])])
+
+
+def _flags_insert(ex, args, f):
+    cur = deref_all(ex, args[0])
+    other = deref_all(ex, args[1])
+    _store(ex, args[0], Adt(cur.ty, "bits", [Int(cur.fields[0].e | other.fields[0].e, cur.fields[0].ty)]))
+    return UNIT
+
+
+def _flags_remove(ex, args, f):
+    cur = deref_all(ex, args[0])
+    other = deref_all(ex, args[1])
+    _store(ex, args[0], Adt(cur.ty, "bits", [Int(cur.fields[0].e & ~other.fields[0].e, cur.fields[0].ty)]))
+    return UNIT
+
+
+def _flags_contains(ex, args, f):
+    a, b = deref_all(ex, args[0]), deref_all(ex, args[1])
+    return Bool((a.fields[0].e & b.fields[0].e) == b.fields[0].e)
+
+
+def _flags_is_empty(ex, args, f):
+    return Bool(deref_all(ex, args[0]).fields[0].e == 0)
+
+
+def _flags_union(ex, args, f):
+    a, b = deref_all(ex, args[0]), deref_all(ex, args[1])
+    return Adt(a.ty, "bits", [Int(a.fields[0].e | b.fields[0].e, a.fields[0].ty)])
+
+
+for _fl in ("DependencyFlags", "FileFlags", "ScriptletFlags", "FileVerifyFlags"):
+    for _pre in ("constants::_::<impl constants::%s>::", "constants::_::<impl %s>::"):
+        for _mn, _fn in (("empty", _flags_empty), ("all", _flags_all), ("insert", _flags_insert), ("remove", _flags_remove), ("contains", _flags_contains),
+                         ("is_empty", _flags_is_empty), ("union", _flags_union)):
+            I.setdefault((_pre % _fl) + _mn, _fn)
